@@ -351,7 +351,7 @@ class T:
                                  "goal_head": str(goal)[:300], "n_assumptions": len(asm)})
         return self._record(clause, kind, res, extra)
 
-    def prove_paths(self, clause, paths, goal_of, kind="ensures", replay=None, only=None):
+    def prove_paths(self, clause, paths, goal_of, kind="ensures", replay=None, only=None, timeout_ms=None):
         """One obligation: for every path, pc => goal_of(path)."""
         gs = []
         for p in paths:
@@ -362,13 +362,13 @@ class T:
                 g = z3.BoolVal(g)
             gs.append(z3.Implies(p.cond(), g))
         goal = z3.And(*gs) if gs else z3.BoolVal(True)
-        return self.prove(clause, goal, kind=kind, replay=replay or ("paths", paths))
+        return self.prove(clause, goal, kind=kind, replay=replay or ("paths", paths), timeout_ms=timeout_ms)
 
-    def prove_each_path(self, clause, paths, goal_of, kind="ensures", replay=None, chunk=1):
+    def prove_each_path(self, clause, paths, goal_of, kind="ensures", replay=None, chunk=1, timeout_ms=None):
         """Like prove_paths but one obligation per path (or per chunk of paths): keeps each query small."""
         res = []
         for i in range(0, len(paths), chunk):
-            res.append(self.prove_paths("%s#path%d" % (clause, i // chunk), paths[i:i + chunk], goal_of, kind=kind, replay=replay))
+            res.append(self.prove_paths("%s#path%d" % (clause, i // chunk), paths[i:i + chunk], goal_of, kind=kind, replay=replay, timeout_ms=timeout_ms))
         return res
 
     def cover(self, clause, formulas, timeout_ms=None):
@@ -379,7 +379,7 @@ class T:
 
     def must_fail(self, clause="planted-false"):
         """Planted obligation that must NOT verify: `pre => False` has to come back with a model."""
-        res = solve.check_valid(list(self.pre) + list(self.ctx.facts), z3.BoolVal(False), self.timeout_ms,
+        res = solve.check_valid(list(self.pre) + list(self.ctx.facts), z3.BoolVal(False), min(self.timeout_ms, 4000),
                                 use_cvc5=False)
         if res["status"] == "unknown":
             # satisfiability modulo functional consistency of real-valued library functions
@@ -399,6 +399,8 @@ class T:
             found = finite.search(list(self.pre) + list(self.ctx.facts), z3.BoolVal(False), None, sizes=(2, 3, 1))
             if found is not None:
                 res = {"status": "failed", "backend": "z3 (finite expansion, universe size %d)" % found[1], "seconds": res.get("seconds")}
+        if res["status"] == "unknown":
+            res = solve.check_valid(list(self.pre) + list(self.ctx.facts), z3.BoolVal(False), 90000, use_cvc5=False)
         ok = res["status"] == "failed"
         rr = {"status": "proved" if ok else ("unknown" if res["status"] == "unknown" else "failed"),
               "backend": res.get("backend"), "seconds": res.get("seconds"),
